@@ -131,6 +131,37 @@ pub fn canon_without_source(text: &str) -> Option<String> {
     Some(prettyplease::unparse(&f))
 }
 
+/// Projections for C09: the file with (a) derive lists emptied and layout assertions removed,
+/// (b) additionally every struct field type blanked.  Returned as canonical text.
+pub fn projections(text: &str) -> Option<(String, String)> {
+    let mut f = syn::parse_file(text).ok()?;
+    fn walk(items: &mut Vec<syn::Item>, blank_types: bool) {
+        items.retain(|it| !matches!(it, syn::Item::Const(c) if c.ident == "_"));
+        for it in items.iter_mut() {
+            match it {
+                syn::Item::Struct(s) => {
+                    s.attrs.retain(|a| !a.path().is_ident("derive"));
+                    if blank_types {
+                        for fl in s.fields.iter_mut() {
+                            fl.ty = syn::parse_quote!(());
+                        }
+                    }
+                }
+                syn::Item::Mod(m) => {
+                    if let Some((_, inner)) = &mut m.content {
+                        walk(inner, blank_types);
+                    }
+                }
+                _ => {}
+            }
+        }
+    }
+    let mut a = f.clone();
+    walk(&mut a.items, false);
+    walk(&mut f.items, true);
+    Some((prettyplease::unparse(&a), prettyplease::unparse(&f)))
+}
+
 pub fn inventory(text: &str) -> Value {
     match syn::parse_file(text) {
         Ok(f) => items(&f.items, 0),
